@@ -301,6 +301,8 @@ func (d dynProfile) GetClaims() psatoken.IClaims {
 		return newTwoEmbClaimsNamed(d.name)
 	case "label-then-p2":
 		return newLabelP2ClaimsNamed(d.name)
+	case "both-keys-p2":
+		return newBothKeysP2ClaimsNamed(d.name)
 	case "no-profile-field":
 		return &NoProfClaims{}
 	case "lookalike-keys":
@@ -326,6 +328,8 @@ func shapeType(shape string) string {
 		return "*checks.TwoEmbClaims"
 	case "label-then-p2":
 		return "*checks.LabelP2Claims"
+	case "both-keys-p2":
+		return "*checks.BothKeysP2Claims"
 	case "p1":
 		return "*psatoken.P1Claims"
 	case "p2":
@@ -544,6 +548,29 @@ func newLabelP2ClaimsNamed(name string) psatoken.IClaims {
 		panic(err)
 	}
 	return &LabelP2Claims{P2Claims: &psatoken.P2Claims{
+		Profile:          &p,
+		SwComponents:     &psatoken.SwComponents[*psatoken.SwComponent]{},
+		CanonicalProfile: name,
+	}}
+}
+
+// ---- a claims type with TWO fields carrying a profile key on the same level:
+// eat_profile (265) first, then a legacy psa-profile (-75000) kept for
+// back-ends that still ask for it: the FIRST one found names the JSON
+// profile member ----
+
+type BothKeysP2Claims struct {
+	*psatoken.P2Claims `cbor:"-" json:"-"`
+	EatProfile         *eat.Profile `cbor:"265,keyasint" json:"eat-profile"`
+	LegacyProfile      *string      `cbor:"-75000,keyasint,omitempty" json:"psa-profile,omitempty"`
+}
+
+func newBothKeysP2ClaimsNamed(name string) psatoken.IClaims {
+	p := eat.Profile{}
+	if err := p.Set(name); err != nil {
+		panic(err)
+	}
+	return &BothKeysP2Claims{P2Claims: &psatoken.P2Claims{
 		Profile:          &p,
 		SwComponents:     &psatoken.SwComponents[*psatoken.SwComponent]{},
 		CanonicalProfile: name,
